@@ -374,6 +374,11 @@ func main() {
 	var knownSeen, pinned []string
 	nviol := 0
 	os.MkdirAll(filepath.Join(verifDir, "replays"), 0o755)
+	if old, _ := filepath.Glob(filepath.Join(verifDir, "replays", prop+"-*.json")); len(old) > 0 {
+		for _, f := range old {
+			os.Remove(f) // replay files of an earlier run of this property
+		}
+	}
 	for _, v := range uniq {
 		if v.Pinned {
 			pinned = append(pinned, v.Signature+": "+v.Detail)
@@ -471,7 +476,7 @@ func cleanup(scratch string, keep bool) {
 func workerEnv(conf propConf, scratch string, i int) []string {
 	env := append(os.Environ(), "GOMAXPROCS=2")
 	if conf.race {
-		env = append(env, "GORACE=halt_on_error=0 history_size=2")
+		env = append(env, fmt.Sprintf("GORACE=halt_on_error=0 exitcode=0 history_size=2 log_path=%s/race-%d", scratch, i))
 	}
 	return env
 }
